@@ -378,7 +378,7 @@ def case_singvec(ctx, rng, idx):
     real = bool(idx % 2)
     kind = ["loguniform", "two-level"][(idx // 2) % 2]
     A, kappa = num.controlled_matrix(rng, m, n, 1e4, real, "loguniform")
-    lo = max(0, n - m)
+    lo = 0          # (wide matrices too: their n - m zero singular values count)
     k = int(rng.integers(lo, n + 1))
     if k == 0 and n > 0 and rng.random() < 0.5 and lo <= 1:
         k = max(lo, 1)
